@@ -98,7 +98,7 @@ func genC20(r *Rng, k int) *RunSpec {
 		typ = Pick(r, names)
 		ctx = []string{asCtx, extTypes[typ]}
 	} else {
-		typ = Pick(r, append(append([]string{}, asTypes...), "Tombstone", "Tombstone", "Tombstone"))
+		typ = Pick(r, append(append([]string{}, asTypes...), "Tombstone", "Tombstone", "Tombstone", "OrderedCollection", "OrderedCollectionPage", "Collection"))
 	}
 	vid := "https://" + hostA + "/v/1"
 	val := J{"@context": ctx, "type": typ, "id": vid, "name": "value", "x-unknown": J{"kept": true}}
@@ -111,6 +111,18 @@ func genC20(r *Rng, k int) *RunSpec {
 		}
 		if r.Intn(3) == 0 && isActivityType(typ) && typ != "Arrive" && typ != "Travel" && typ != "IntransitiveActivity" && typ != "Question" { // intransitive types have no object property
 			val["object"] = J{"type": "Note", "id": "https://" + hostA + "/v/2", "bto": st.Dave, "content": "inner"}
+		}
+	}
+	if strings.HasSuffix(typ, "Collection") || strings.HasSuffix(typ, "CollectionPage") || r.Intn(12) == 0 && !isActivityType(typ) && typ != "Link" && typ != "Mention" && typ != "PublicKey" && typ != "Tombstone" {
+		// a stored collection is served as stored: repeated entries and all (only GetInbox de-duplicates)
+		key := "items"
+		if strings.HasPrefix(typ, "Ordered") {
+			key = "orderedItems"
+		}
+		if key == "orderedItems" || strings.HasSuffix(typ, "Collection") || strings.HasSuffix(typ, "CollectionPage") {
+			e1, e2 := "https://"+hostR+"/act/e1", "https://"+hostR+"/act/e2"
+			val[key] = []interface{}{e1, e2, e1, J{"type": "Note", "id": e2, "content": "again"}, e1}
+			val["totalItems"] = 5
 		}
 	}
 	if typ == "Tombstone" {
